@@ -28,7 +28,10 @@ for pid in sys.argv[2:]:
         if os.path.exists(mp) and json.load(open(mp))["property"] == pid:
             earlier.append(n.split("-", 1)[1].replace("-", " "))
     focus = ("earlier seeds for this property already did these (do something that differs in mechanism and place): %s. "
-             "Prefer a change whose effect needs a specific interleaving, a specific sequence of calls, or a specific boundary value." % "; ".join(earlier))
+             "Prefer a change whose effect needs a specific interleaving, a specific sequence of calls, or a specific boundary value. "
+             "Corners worth considering: error/failure paths and what state they leave behind, rarely combined options or wrappers, "
+             "callbacks that call back into the same object, objects used right after construction or right after shutdown/restart, "
+             "the less used methods of the API, aliasing of caller-owned slices, integer boundaries." % "; ".join(earlier))
     mod, pkgs = MOD[pid]
     t = open(os.path.join(ROOT, "tools", "seed_prompt.txt")).read()
     t = t.replace("@R@", r).replace("@FOCUS@", focus).replace("@MOD@", mod).replace("@PKGS@", pkgs).replace("second-round", "later-round")
